@@ -35,6 +35,9 @@ def cases(rng, tier):
     n = {"quick": 6, "thorough": 60, "search": 40}[tier]
     out = [{"t": "world", "jwt": rng.random() < 0.5, "oidc": rng.random() < 0.7, "seed": rng.getrandbits(40), "nmut": 70 if tier == "quick" else 150} for _ in range(n)]
     # every handler a JWT handler built from ONE specification, ID tokens signed with the algorithm of the JWT handlers
+    # worlds with token exchange: exchanged tokens (owning and another client) are tokens like any other
+    out += [{"t": "world", "jwt": False, "oidc": rng.random() < 0.7, "xchg": True, "seed": rng.getrandbits(40), "nmut": 30 if tier == "quick" else 100}
+            for _ in range({"quick": 1, "thorough": 8, "search": 4}[tier])]
     out += [{"t": "world", "jwt": "shared", "oidc": True, "seed": rng.getrandbits(40), "nmut": 30 if tier == "quick" else 100}
             for _ in range({"quick": 1, "thorough": 6, "search": 4}[tier])]
     return out
@@ -104,8 +107,9 @@ def impl(c):
     rng = random.Random(c["seed"])
     from idpyoidc.server.oauth2.token_revocation import TokenRevocation
     # the revocation endpoint also accepts an access token as the client's credential (bearer_header)
-    R = prov.Runner(c["oidc"], c["jwt"], more_endpoints={"token_revocation": {"path": "revocation", "class": TokenRevocation,
-                                                                              "kwargs": {"client_authn_method": opbase_cliauth() + ["bearer_header"]}}})
+    R = prov.Runner(c["oidc"], c["jwt"], usage="exchange" if c.get("xchg") else None,
+                    more_endpoints={"token_revocation": {"path": "revocation", "class": TokenRevocation,
+                                                         "kwargs": {"client_authn_method": opbase_cliauth() + ["bearer_header"]}}})
     if c["jwt"]:
         # ID tokens of client_2 carry the signature algorithm of the JWT token handlers (their default, ES256)
         R.s.context.cdb["client_2"]["id_token_signed_response_alg"] = "ES256"
@@ -117,6 +121,14 @@ def impl(c):
             r = R.op(["authorize", u, cl, ["openid", "offline_access", "email"], red])
             if r[0] == "code" and rng.random() < 0.8:
                 R.op(["tokenParse", cl, r[1], red]); R.op(["tokenProcess", 0])
+    if c.get("xchg"):
+        acc = [t[0] for t in R.projection()["toks"] if t[1] == "access"]
+        ref = [t[0] for t in R.projection()["toks"] if t[1] == "refresh"]
+        for _ in range(6):
+            if acc:
+                R.op(["exchange", rng.choice(prov.CLIENTS[:3]), rng.choice(acc), "access", rng.choice([None, "access", "refresh"]), None])
+            if ref:
+                R.op(["exchange", rng.choice(prov.CLIENTS[:3]), rng.choice(ref), "refresh", rng.choice([None, "access"]), None])
     R.op(["revokeTok", rng.choice(sorted(R.val)), False])
     proj = R.projection()
     toks = {t[0]: t for t in proj["toks"]}
